@@ -137,7 +137,17 @@ def build_tools(streams):
     except Exception as e:  # noqa
         errs.append("go.sum: %s" % e)
     os.makedirs(os.path.join(ROOT, "build"), exist_ok=True)
-    rc, out = sh(["go", "build", "-o", os.path.join(ROOT, "build", "hrun"), "./cmd/hrun"], cwd=hdir, env=GOENV, timeout=1800)
+    cmd = ["go", "build", "-o", os.path.join(ROOT, "build", "hrun")]
+    repo = os.environ.get("VERIF_REPO", "/repo")
+    if repo != "/repo":
+        # development aid: run the harness against a scratch worktree of koykov/inspector
+        os.makedirs(CACHE, exist_ok=True)
+        alt = os.path.join(CACHE, "alt.mod")
+        open(alt, "w").write(open(os.path.join(hdir, "go.mod")).read().replace("=> /repo", "=> " + repo))
+        import shutil
+        shutil.copyfile(os.path.join(repo, "go.sum"), os.path.join(CACHE, "alt.sum"))
+        cmd += ["-modfile=" + alt]
+    rc, out = sh(cmd + ["./cmd/hrun"], cwd=hdir, env=GOENV, timeout=1800)
     if rc != 0:
         errs.append("go build hrun (does /repo still compile?): %s" % out[-3000:])
     return errs
